@@ -279,7 +279,7 @@ func (r *runner[C]) exec(c C, count bool) *Violation {
 		r.st.Labels[l]++
 	}
 	ch := hash8(cj)
-	if r.spec.CountSubs {
+	if r.spec.CountSubs || x.subEvals > 0 {
 		r.st.Evaluations += x.subEvals
 		for _, s := range x.subs {
 			if len(r.nt) < maxHashes {
